@@ -2,24 +2,35 @@
    realises, the observation vector, and the monitors of C15 on observed traces.
 
    Config line   [eqcode; v0]     eqcode: 0 no custom equality, 1 equal mod 2, 2 always equal,
-                                  3 a <= b (not symmetric), 4 equal div 4;  v0 the initial value.
+                                  3 a <= b (not symmetric), 4 equal div 4, 5 never equal (NOT REFLEXIVE: the code's compare
+                                  still treats identical values as equal), 6 a < b (not reflexive, not symmetric),
+                                  7 a container built with NewCContainerVT over a pointer type whose EqualVT compares an id
+                                  (the numbers of the history are the ids, 0 = nil; values are freshly allocated, so equal but
+                                  not identical pointers occur: proto.IsEqualVT on them is equality of the numbers);
+                                  v0 the initial value.
    Events        [1]              GetValue in a new actor
                  [2; v]           SetValue v in a new actor
                  [3; f; k]        SwapValue in a new actor; callback f: 0 nil, 1 +k, 2 constant k, 3 identity
                  [4; kind; x; y; hc]  waiter in a new actor: kind 0 WaitValue, 1 WaitValueChange old=x, 2 WaitValueEmpty,
-                                  3 WaitValueWithValidator (family x, parameter y); hc = 1: with an error channel
+                                  3 WaitValueWithValidator (family x, parameter y);
+                                  hc = e + 2 * f + 6 * p:  e = 1: with an error channel;  f the FLAVOUR of its context: 0 plain
+                                  WithCancel, 1 ends like a deadline (Err() = context.DeadlineExceeded), 2 cancelled with a cause
+                                  (Err() = context.Canceled, context.Cause = another error);  p = 1: the context has ALREADY ENDED
+                                  when the call is made
                  [5; i]           actor i continues from the gate it is parked at
-                 [6; i]           cancel the context of waiter i
+                 [6; i]           the context of waiter i ends (in the way of its flavour)
                  [7; i; m]        error channel of waiter i: m = 0 send nil, 1 send an error, 2 close
                  [8; init; hc]    WatchChanges(ctx, init, ToWatchable(ctr), cb, errCh) in a new actor (a "watcher": events 5, 6, 7
-                                  apply to it as to a waiter; 6 and 7 also while it is inside its callback)
+                                  apply to it as to a waiter; 6 and 7 also while it is inside its callback); hc as in event 4
                  [9; i; r]        the callback of watcher i returns: r = 0 nil, 1 an error
    Observation   one number per actor: status + 16 * value
                  status 1 at a HoldLock entry gate, 7 at the exit gate of the sampling section, 2 blocked in the select,
                  3 returned ok (value), 4 returned context.Canceled, 5 returned the error channel's error,
                  6 returned the validator's error,
                  10 inside the WatchChanges callback (value = the callback's argument), 11 WatchChanges returned the
-                 callback's error. *)
+                 callback's error, 13 returned context.DeadlineExceeded
+                 (the harness also has: 14 returned the cancellation cause of the context, 8 returned any other error, 9 panicked,
+                 12 WatchChanges returned nil: the model never produces them). *)
 From Util Require Import Common.Base Common.ListLemmas CContainer.Model.
 
 Definition eq_of_code (c : N) (x y : N) : bool :=
@@ -28,6 +39,9 @@ Definition eq_of_code (c : N) (x y : N) : bool :=
   | 1 => (x mod 2 =? y mod 2)
   | 2 => true
   | 3 => (x <=? y)
+  | 5 => false
+  | 6 => (x <? y)
+  | 7 => (x =? y)
   | _ => (x / 4 =? y / 4)
   end%N.
 
@@ -57,6 +71,7 @@ Definition code (x : actor) : N :=
   | WRet _ v EValid => 6 + 16 * v
   | WCb _ v => 10 + 16 * v
   | WRet _ v ECb => 11 + 16 * v
+  | WRet _ v EDeadline => 13 + 16 * v
   end%N.
 
 Definition obs (s : st) : list N := map code (acts s).
@@ -69,8 +84,20 @@ Definition waiting_pc (p : apc) : bool := match p with WGate _ | WBlocked _ _ _ 
 
 (* decoded harness events *)
 Inductive errm := MNil | MErr | MClose.
-Inductive hev := HCall (o : op) | HWait (w : wkind) (hc : bool) | HStep (a : nat) | HCancel (a : nat) | HErr (a : nat) (m : errm)
+Inductive hev := HCall (o : op) | HWait (w : wkind) (hc : bool) (fl : cflav) (pre : bool) | HStep (a : nat) | HCancel (a : nat) | HErr (a : nat) (m : errm)
                | HCbRet (a : nat) (err : bool).
+
+(* the context / error-channel options of a waiter call: hc = e + 2 * flavour + 6 * pre *)
+Definition ctxopts (hc : N) : option (bool * cflav * bool) :=
+  match hc with
+  | 0 => Some (false, CPlain, false)    | 1 => Some (true, CPlain, false)
+  | 2 => Some (false, CDeadline, false) | 3 => Some (true, CDeadline, false)
+  | 4 => Some (false, CCause, false)    | 5 => Some (true, CCause, false)
+  | 6 => Some (false, CPlain, true)     | 7 => Some (true, CPlain, true)
+  | 8 => Some (false, CDeadline, true)  | 9 => Some (true, CDeadline, true)
+  | 10 => Some (false, CCause, true)    | 11 => Some (true, CCause, true)
+  | _ => None
+  end%N.
 
 Definition decode (e : list N) : option hev :=
   match e with
@@ -78,16 +105,16 @@ Definition decode (e : list N) : option hev :=
   | [2; v] => Some (HCall (OSet v))
   | [3; f; k] => match swapf_of f k with Some g => Some (HCall (OSwap g)) | None => None end
   | [4; kind; x; y; hc] =>
-    match wkind_of kind x y with
-    | Some w => if (hc <=? 1) then Some (HWait w (hc =? 1)) else None
-    | None => None
+    match wkind_of kind x y, ctxopts hc with
+    | Some w, Some (e, fl, pre) => Some (HWait w e fl pre)
+    | _, _ => None
     end
   | [5; i] => Some (HStep (N.to_nat i))
   | [6; i] => Some (HCancel (N.to_nat i))
   | [7; i; 0] => Some (HErr (N.to_nat i) MNil)
   | [7; i; 1] => Some (HErr (N.to_nat i) MErr)
   | [7; i; 2] => Some (HErr (N.to_nat i) MClose)
-  | [8; cur; hc] => if (hc <=? 1) then Some (HWait (WWatch cur) (hc =? 1)) else None
+  | [8; cur; hc] => match ctxopts hc with Some (e, fl, pre) => Some (HWait (WWatch cur) e fl pre) | None => None end
   | [9; i; 0] => Some (HCbRet (N.to_nat i) false)
   | [9; i; 1] => Some (HCbRet (N.to_nat i) true)
   | _ => None
@@ -99,7 +126,9 @@ Definition hstep_ev (h : hst) (e : hev) : option (hst * list N) :=
   let ret s' := Some ({| eqc := eqc h; ms := s' |}, obs s') in
   match e with
   | HCall o => ret (step eqv s (Call o))
-  | HWait w hc => ret (step eqv s (CallWait w hc))
+  | HWait w hc fl pre =>
+    let s1 := step eqv s (CallWait w hc fl) in
+    ret (if pre then step eqv s1 (CancelCtx (length (acts s))) else s1)     (* the context had ended before the call *)
   | HStep a =>
     match nth_error (acts s) a with
     | Some x =>
@@ -150,9 +179,16 @@ Definition hstep (h : hst) (e : list N) : option (hst * list N) :=
      3  a waiter returned a value the cell did not hold during the call
      4  a waiter returned a value that does not satisfy its condition (WaitValueEmpty: no held value is "empty")
      5  at a quiescent observation a waiter is blocked although the content satisfies its condition
-     6  a waiter returned context.Canceled although neither its context was cancelled nor its error channel closed
+     6  a waiter returned context.Canceled although neither its context ended with Err() = context.Canceled (a plain or
+        with-cause context that was cancelled) nor its error channel was closed
      7  a waiter returned the error channel's error although none was sent
      8  a waiter returned the validator's error although the validator fails on no value held during the call
+     9  a waiter returned context.DeadlineExceeded although its context did not end like a deadline (it has not ended, or
+        it is not a deadline context)
+     10 a waiter returned the cancellation cause of a with-cause context although its context was not cancelled with
+        that cause
+   (6, 9, 10: "return the context's error only if that source fired" - the error a waiter returns is the error of a
+   source that fired: of the context, ctx.Err(), which depends on how the context ended.)
    WatchChanges: every round is a WaitValueChange(current) call, judged by the same clauses: 3 / 4 when the callback is
    observed to be entered with v (v held by the cell since the round began, i.e. since the previous callback returned or
    the call was made; v differs from current under the container's equality), 5 with the condition "differs from
@@ -161,7 +197,8 @@ Definition hstep (h : hst) (e : list N) : option (hst * list N) :=
 Inductive mkind := MKOp (o : op) | MKWait (w : wkind).
 Record mactor := { mkd : mkind;
                    mheld : list N;      (* values the cell held since the call was made *)
-                   mcanc : bool;        (* its context was cancelled *)
+                   mcanc : bool;        (* its context has ended *)
+                   mfl : cflav;         (* the flavour of its context (from the call event) *)
                    mclosed : bool;      (* its error channel was closed *)
                    msent : bool }.      (* a non-nil error was sent on its error channel *)
 Record mstate := { meq : N; mcur : N; mas : list mactor; mprev : list N (* the previous observation *) }.
@@ -173,8 +210,8 @@ Definition minit (cfg : list N) : mstate :=
   | [] => {| meq := 0; mcur := 0; mas := []; mprev := [] |}
   end%N.
 
-Definition mnew (k : mkind) (cur : N) : mactor :=
-  {| mkd := k; mheld := [cur]; mcanc := false; mclosed := false; msent := false |}.
+Definition mnew (k : mkind) (cur : N) (fl : cflav) (canc : bool) : mactor :=
+  {| mkd := k; mheld := [cur]; mcanc := canc; mfl := fl; mclosed := false; msent := false |}.
 
 Definition upd {A} (l : list A) (i : nat) (f : A -> A) : list A :=
   match nth_error l i with Some x => set_nth l i (f x) | None => l end.
@@ -185,15 +222,15 @@ Definition is_err (r : vres) : bool := match r with VErr => true | _ => false en
 Definition st_of (c : N) : N := (c mod 16)%N.
 Definition val_of (c : N) : N := (c / 16)%N.
 
-Definition set_canc (a : mactor) : mactor := {| mkd := mkd a; mheld := mheld a; mcanc := true; mclosed := mclosed a; msent := msent a |}.
-Definition set_sent (a : mactor) : mactor := {| mkd := mkd a; mheld := mheld a; mcanc := mcanc a; mclosed := mclosed a; msent := true |}.
-Definition set_closed (a : mactor) : mactor := {| mkd := mkd a; mheld := mheld a; mcanc := mcanc a; mclosed := true; msent := msent a |}.
+Definition set_canc (a : mactor) : mactor := {| mkd := mkd a; mheld := mheld a; mcanc := true; mfl := mfl a; mclosed := mclosed a; msent := msent a |}.
+Definition set_sent (a : mactor) : mactor := {| mkd := mkd a; mheld := mheld a; mcanc := mcanc a; mfl := mfl a; mclosed := mclosed a; msent := true |}.
+Definition set_closed (a : mactor) : mactor := {| mkd := mkd a; mheld := mheld a; mcanc := mcanc a; mfl := mfl a; mclosed := true; msent := msent a |}.
 (* the callback of a watcher returned nil after being called with v: current := v, a new wait begins now *)
 Definition next_round (v cur : N) (a : mactor) : mactor :=
   {| mkd := match mkd a with MKWait (WWatch _) => MKWait (WWatch v) | k => k end;
-     mheld := [cur]; mcanc := mcanc a; mclosed := mclosed a; msent := msent a |}.
+     mheld := [cur]; mcanc := mcanc a; mfl := mfl a; mclosed := mclosed a; msent := msent a |}.
 Definition add_held (v : N) (a : mactor) : mactor :=
-  {| mkd := mkd a; mheld := mheld a ++ [v]; mcanc := mcanc a; mclosed := mclosed a; msent := msent a |}.
+  {| mkd := mkd a; mheld := mheld a ++ [v]; mcanc := mcanc a; mfl := mfl a; mclosed := mclosed a; msent := msent a |}.
 
 (* 1. the event's own effect on the bookkeeping.  A watcher observed to go from "inside the callback" to the entry
       gate when its callback returns has begun a new round (whatever the callback returned: the monitors do not
@@ -201,8 +238,8 @@ Definition add_held (v : N) (a : mactor) : mactor :=
 Definition mon_event (m : mstate) (e : option hev) (o : list N) : list mactor :=
   let ml := mas m in
   match e with
-  | Some (HCall o) => ml ++ [mnew (MKOp o) (mcur m)]
-  | Some (HWait w _) => ml ++ [mnew (MKWait w) (mcur m)]
+  | Some (HCall o) => ml ++ [mnew (MKOp o) (mcur m) CPlain false]
+  | Some (HWait w _ fl pre) => ml ++ [mnew (MKWait w) (mcur m) fl pre]
   | Some (HCancel a) => upd ml a set_canc
   | Some (HErr a MErr) => upd ml a set_sent
   | Some (HErr a MClose) => upd ml a set_closed
@@ -246,7 +283,9 @@ Definition chk_actor (eqv : N -> N -> bool) (cur : N) (quiet : bool) (p : mactor
        end
      else []) ++
     (if (t =? 10)%N then (if memN v (mheld a) then [] else [(15, 3)]) ++ (if is_ok (cond eqv w v) then [] else [(15, 4)]) else []) ++
-    (if (t =? 4)%N && negb (mcanc a || mclosed a) then [(15, 6)] else []) ++
+    (if (t =? 4)%N && negb (mcanc a && negb (is_deadline (mfl a)) || mclosed a) then [(15, 6)] else []) ++
+    (if (t =? 13)%N && negb (mcanc a && is_deadline (mfl a)) then [(15, 9)] else []) ++
+    (if (t =? 14)%N && negb (mcanc a && is_cause (mfl a)) then [(15, 10)] else []) ++
     (if (t =? 5)%N && negb (msent a) then [(15, 7)] else []) ++
     (if (t =? 6)%N && negb (existsb (fun h => is_err (cond eqv w h)) (mheld a)) then [(15, 8)] else []) ++
     (if quiet && (t =? 2)%N && is_ok (cond eqv w cur) then [(15, 5)] else [])
